@@ -1,6 +1,7 @@
 """Function-by-function verification driver: every path of the real AST against the sidecar contract."""
 from __future__ import annotations
 
+import os
 import ast
 import time
 import traceback
@@ -308,6 +309,7 @@ def verify_many(spec: Spec, keys, axioms, timeout_ms=10000, procs=16, pid=None) 
         res.info = info
         todo.append(key)
     if todo:
+        procs = int(os.environ.get('PYVC_PROCS', procs))
         pool = multiprocessing.get_context('fork').Pool(procs)
         try:
             limit = max(300.0, 15.0 * timeout_ms / 1000.0)      # wall-clock limit of one path task (symbolic execution + its obligations)
